@@ -22,6 +22,24 @@ GOENV = dict(os.environ, GOFLAGS="-mod=mod", GOPROXY="off")
 NCPU = os.cpu_count() or 4
 
 
+class cache_lock:
+    """Exclusive lock per cached artefact: several checks may run at the same time and share the cache."""
+    def __init__(self, name):
+        self.path = os.path.join(CACHE, "locks", re.sub(r"[^A-Za-z0-9_.-]", "_", name) + ".lock")
+
+    def __enter__(self):
+        import fcntl
+        os.makedirs(os.path.dirname(self.path), exist_ok=True)
+        self.fh = open(self.path, "w")
+        fcntl.flock(self.fh, fcntl.LOCK_EX)
+        return self
+
+    def __exit__(self, *a):
+        import fcntl
+        fcntl.flock(self.fh, fcntl.LOCK_UN)
+        self.fh.close()
+
+
 def log(*a):
     print(*a, file=sys.stderr, flush=True)
 
@@ -47,6 +65,11 @@ def src_hash():
 
 
 def build_harness(sh):
+    with cache_lock("build"):
+        return _build_harness(sh)
+
+
+def _build_harness(sh):
     out = os.path.join(CACHE, "bin", sh, "harness.test")
     if os.path.exists(out):
         return out
@@ -75,6 +98,11 @@ def build_harness(sh):
 
 
 def gen_corpus(binpath, sh, corpus, seed0, n, steps, extra_env=None):
+    with cache_lock(f"corpus_{sh}_{corpus}_{seed0}_{n}_{steps}"):
+        return _gen_corpus(binpath, sh, corpus, seed0, n, steps, extra_env)
+
+
+def _gen_corpus(binpath, sh, corpus, seed0, n, steps, extra_env=None):
     """Generate traces corpus_<seed>.ndjson for seeds seed0..seed0+n-1 (cached per source hash)."""
     d = os.path.join(CACHE, "corpus", sh, f"{corpus}_{seed0}_{n}_{steps}")
     done = os.path.join(d, ".done")
@@ -115,6 +143,11 @@ def gen_corpus(binpath, sh, corpus, seed0, n, steps, extra_env=None):
 
 
 def gen_schedules(sh, cp, seed, n):
+    with cache_lock(f"mbt_{sh}_{cp['name']}_{seed}_{n}"):
+        return _gen_schedules(sh, cp, seed, n)
+
+
+def _gen_schedules(sh, cp, seed, n):
     """TLC -simulate writes one behaviour of the generator spec per file (sched_<i>.ndjson); cached per source hash."""
     m = cp["mbt"]
     d = os.path.join(CACHE, "mbt", sh, f"{cp['name']}_{seed}_{n}")
